@@ -68,7 +68,7 @@ Check (C16_fair_terminates :
   1 <= g_alpha g -> fresh_ids [] (es0 ++ es1) -> cmds_ok g es0 -> evs_in_U U es0 -> evs_in_U U es1 ->
   let s0 := fst (run g (st0 m) es0) in
   fair_run g s0 es1 ->
-  (length es1 <= budget (length U) g es0)%nat /\
+  (length (work es1) <= budget (length U) g es0)%nat /\
   (stuck (fst (run g s0 es1)) ->
    terminals q (snd (run g (st0 m) (es0 ++ es1))) = started q (es0 ++ es1) /\
    (started q (es0 ++ es1) <= 1)%nat)).
